@@ -135,6 +135,8 @@ def run(ctx):
             check_distribution(ctx, bad, info, case, niexec.run_case(dict(case, fill1=fill, fill2=[0], ops=[op], backend="numpy"), "numpy")["run1"], axis, back)
             model_reqs.append({"op": "body_ops", "backend": "numpy", "body": model_body(case), "ops": [{"k": "normalize_distribution", "all_points": axis == [0, 1, 2], "unnormalize": back}]})
             model_meta.append((info, case, [op]))
+    # ------------------------------------------------------------------ normalize() with the default reference points of a known format
+    default_reference(ctx, bad)
     # ------------------------------------------------------------------ 3-D
     norm3d(ctx, bad, model_reqs, model_meta)
     # ------------------------------------------------------------------ tensorflow
@@ -157,13 +159,46 @@ def run(ctx):
             res = niexec.run_case(dict(case, fill1=[0], fill2=[0], ops=ops, backend="numpy"), "numpy")["run1"]
             if "error" in res[-1]:
                 continue
-            d, m, c = view_np(res[-1])
-        if len(steps) < 2 or "error" in steps[-1]:
+            d, m, c = view_np(res[len(ops)])
+        if len(steps) <= len(ops) or "error" in steps[len(ops)]:
             ctx.violation("the model refuses a normalisation the implementation performs", info, {}, False); continue
-        md = np.array([bits_f64(x) for x in steps[-1]["zf"]]).reshape(d.shape)
-        mm = np.array(steps[-1]["missing"], dtype=bool).reshape(d.shape)
+        md = np.array([bits_f64(x) for x in steps[len(ops)]["zf"]]).reshape(d.shape)
+        mm = np.array(steps[len(ops)]["missing"], dtype=bool).reshape(d.shape)
         if not np.array_equal(m, mm) or not np.allclose(d, md, rtol=5e-4, atol=5e-4 * max(1.0, float(np.nanmax(np.abs(md))) if md.size else 1.0), equal_nan=True):
             ctx.violation("a normalisation differs from its model", info, {"max_abs": float(np.nanmax(np.abs(d - md))) if d.size else 0, "rel": float(np.nanmax(np.abs(d - md)) / max(1e-9, np.nanmax(np.abs(md)))) if d.size else 0}, False)
+
+
+def default_reference(ctx, bad):
+    """`pose.normalize()` without an explicit reference on OpenPose-shaped headers: the shoulders of THIS header, wherever its layout puts them — two layouts of the
+    same format in one process (points removed in front of the shoulders, components re-ordered), in a drawn order"""
+    import copy
+    from pose_format import Pose
+    from pose_format.numpy import NumPyPoseBody
+    from pose_format.pose_header import PoseHeader, PoseHeaderDimensions
+    from pose_format.utils.openpose import OpenPose_Components
+    rng = ctx.rng
+    for rep in range(ctx.pick(3, 12)):
+        header = PoseHeader(0.2, PoseHeaderDimensions(100, 100, 0), copy.deepcopy(OpenPose_Components))
+        N, F = header.total_points(), rng.randint(2, 4)
+        data = np.array([rng.randint(-64, 64) / 4 for _ in range(F * N * 2)], dtype=np.float32).reshape(F, 1, N, 2)
+        full = Pose(header, NumPyPoseBody(25.0, data, np.ones((F, 1, N), dtype=np.float32)))
+        variants = [("full", full), ("without Nose", full.remove_components([], {"pose_keypoints_2d": ["Nose"]})),
+                    ("face first", full.get_components(["face_keypoints_2d", "pose_keypoints_2d", "hand_left_keypoints_2d", "hand_right_keypoints_2d"]))]
+        rng.shuffle(variants)
+        for name, pose in variants:
+            p = pose.copy()
+            ctx.evaluated(("default-reference", rep, name)); ctx.count("normalize() with the format's default reference: " + name)
+            try:
+                p.normalize()
+                i1, i2 = p.header.get_point_index("pose_keypoints_2d", "RShoulder"), p.header.get_point_index("pose_keypoints_2d", "LShoulder")
+                d = np.asarray(p.body.data.data, dtype=np.float64)
+                a, b = d[:, :, i1], d[:, :, i2]
+                md = np.sqrt(((a - b) ** 2).sum(-1)).mean(); mid = ((a + b) / 2).mean(axis=(0, 1))
+                if not math.isclose(md, 1.0, rel_tol=TOL * 5) or np.abs(mid).max() > TOL * 5:
+                    bad("after normalize the mean reference distance is not the requested scale or the mean midpoint is not the origin", {"header_layout": name, "reference": "the format's shoulders (default)"},
+                        {"mean_distance": float(md), "mean_midpoint": mid.tolist()}, {"what": "default reference"})
+            except Exception as e:
+                bad("normalize raises although its reference points are jointly observed", {"header_layout": name, "reference": "default"}, {"error": type(e).__name__ + ": " + str(e)[:100]}, {"what": "default reference"})
 
 
 def check_normalize(ctx, bad, info, case, r1, r2, p1, p2, scale):
@@ -256,6 +291,10 @@ def norm3d(ctx, bad, model_reqs, model_meta):
                 nrm = np.cross(t[1] - t[0], t[2] - t[0])
                 v = data[f, p, line[1]] - data[f, p, line[0]]
                 if np.linalg.norm(nrm) < 0.5 or np.linalg.norm(v) < 0.5 or np.linalg.norm(np.cross(v, nrm)) < 0.2 * np.linalg.norm(v) * np.linalg.norm(nrm):
+                    ok = False
+                # the library builds its basis from (1, 0, 0) × normal: a plane whose normal is (nearly) the X axis has no such basis (the extreme of known finding K2:
+                # the basis vector shrinks to 0 and the frame collapses onto one axis; the model divides 0 by 0 there) — outside the cases compared
+                if np.linalg.norm(nrm[1:]) < 0.2 * np.linalg.norm(nrm):
                     ok = False
         if not ok:
             continue
